@@ -69,7 +69,81 @@ pub fn conc_main(a: &[String]) {
             states.push(gs);
         }
     }
+    // repetition-rich states: two pieces shuttling back and forth so that positions recur and the repetition filters
+    // (which walk the shared history list) withhold some actions; these are expanded many times by every thread
+    let n_plain = states.len();
+    let mut withheld_states = 0u64;
+    let mut hot: Vec<usize> = vec![];
+    for k in 0..(roots / 8).max(8) {
+        let mut cells: [Cell; 64] = [None; 64];
+        let a = (2 + rng.below(4) as usize) * 8 + 1 + rng.below(6) as usize;
+        let b = (2 + rng.below(4) as usize) * 8 + 1 + rng.below(6) as usize;
+        if a == b || TRAPS.contains(&a) || TRAPS.contains(&b) || nbrs(a).contains(&b) {
+            continue;
+        }
+        cells[a] = Some((true, KINDS[1 + rng.below(5) as usize]));
+        cells[b] = Some((false, KINDS[1 + rng.below(5) as usize]));
+        for (sq, g) in [(6 * 8, true), (8 + 7, false)] {
+            if cells[sq].is_none() {
+                cells[sq] = Some((g, Piece::Rabbit));
+            }
+        }
+        let text = diagram(&cells, 2, k % 2 == 0);
+        if let Ok(Ok(mut gs)) = parse_state_guarded(&text) {
+            let mut last: [Option<Action>; 2] = [None, None];
+            for _ in 0..40 {
+                if gs.current_step() == 0 && gs.is_terminal().is_some() {
+                    break;
+                }
+                let acts = gs.valid_actions();
+                if acts.is_empty() {
+                    break;
+                }
+                if acts.len() != gs.valid_actions_no_rep().len() {
+                    withheld_states += 1;
+                    hot.push(states.len());
+                }
+                states.push(gs.clone());
+                let side = gs.is_p1_turn_to_move() as usize;
+                let a = if gs.current_step() >= 1 && acts.contains(&Action::Pass) && rng.chance(3, 4) {
+                    Action::Pass
+                } else {
+                    let undo = last[side].and_then(|x| {
+                        if let Action::Move(sq, d) = x {
+                            let i = sq.index() as i32;
+                            let (j, od) = match d {
+                                Direction::Up => (i - 8, Direction::Down),
+                                Direction::Down => (i + 8, Direction::Up),
+                                Direction::Left => (i - 1, Direction::Right),
+                                Direction::Right => (i + 1, Direction::Left),
+                            };
+                            let c = Action::Move(Square::from_index(j as u8), od);
+                            if acts.contains(&c) {
+                                return Some(c);
+                            }
+                        }
+                        None
+                    });
+                    let quiet: Vec<Action> = acts.iter().cloned().filter(|x| matches!(x, Action::Move(sq, _) if gs.piece_board().bits_by_piece_type(Piece::Rabbit) & (1u64 << sq.index()) == 0)).collect();
+                    let pick = match undo {
+                        Some(u) if rng.chance(4, 5) => u,
+                        _ if !quiet.is_empty() => quiet[rng.below(quiet.len() as u64) as usize],
+                        _ => acts[rng.below(acts.len() as u64) as usize],
+                    };
+                    if gs.current_step() == 0 {
+                        last[side] = Some(pick);
+                    }
+                    pick
+                };
+                gs = gs.take_action(&a);
+            }
+            states.push(gs);
+        }
+    }
+    let n_rep = states.len() - n_plain;
     let sequential: Vec<u64> = states.iter().map(expand_digest).collect();
+    hot.truncate(48);
+    let hot = Arc::new(hot);
     let shared = Arc::new(states);
     let seq = Arc::new(sequential);
     let mism = Arc::new(AtomicUsize::new(0));
@@ -80,6 +154,7 @@ pub fn conc_main(a: &[String]) {
         let seq = Arc::clone(&seq);
         let mism = Arc::clone(&mism);
         let done = Arc::clone(&done);
+        let hot = Arc::clone(&hot);
         handles.push(std::thread::spawn(move || {
             let n = shared.len();
             // every thread expands every shared state, each in a different order, while holding
@@ -91,6 +166,38 @@ pub fn conc_main(a: &[String]) {
                 order.swap(i, j);
             }
             let mut first_bad: Option<usize> = None;
+            // all threads hammer the same state at the same time: the states in which the repetition filter withholds
+            // an action (one queried position is in the history twice, another is not), and the states around them
+            for &hi in hot.iter() {
+                for rep in 0..400usize {
+                    let i = (hi + rep % 3).min(n - 1);
+                    let d = expand_digest(&shared[i]);
+                    if d != seq[i] {
+                        mism.fetch_add(1, Ordering::SeqCst);
+                        if first_bad.is_none() {
+                            first_bad = Some(i);
+                        }
+                    }
+                    done.fetch_add(1, Ordering::SeqCst);
+                }
+            }
+            // the repetition-rich states many times over, interleaved by a per-thread stride
+            for round in 0..20usize {
+                for k in 0..(n - n_plain) {
+                    let i = n_plain + (k * (2 * t + 1) + round) % (n - n_plain).max(1);
+                    if i >= n {
+                        continue;
+                    }
+                    let d = expand_digest(&shared[i]);
+                    if d != seq[i] {
+                        mism.fetch_add(1, Ordering::SeqCst);
+                        if first_bad.is_none() {
+                            first_bad = Some(i);
+                        }
+                    }
+                    done.fetch_add(1, Ordering::SeqCst);
+                }
+            }
             for &i in order.iter() {
                 let local = shared[i].clone();
                 let d = expand_digest(&shared[i]);
@@ -119,9 +226,11 @@ pub fn conc_main(a: &[String]) {
     }
     let sample = format!("{}", shared[0]).replace('\n', "/");
     println!(
-        "{{\"threads\":{},\"shared_states\":{},\"expansions\":{},\"mismatches\":{},\"first_bad\":{},\"sample\":{:?}}}",
+        "{{\"threads\":{},\"shared_states\":{},\"repetition_rich_states\":{},\"states_with_withheld_actions\":{},\"expansions\":{},\"mismatches\":{},\"first_bad\":{},\"sample\":{:?}}}",
         threads,
         shared.len(),
+        n_rep,
+        withheld_states,
         done.load(Ordering::SeqCst),
         mism.load(Ordering::SeqCst),
         first_bad.map(|i| i as i64).unwrap_or(-1),
